@@ -329,6 +329,24 @@ Theorem c01_repositories_file_independent_of_tempdir : forall cond c tmp tmp' st
 Proof. exact repositories_generated. Qed.
 Print Assumptions c01_repositories_file_independent_of_tempdir.
 
+(* ... without assuming what the other steps do (round 2).  In the theorem above every
+   step other than SetRepositories leaves the file alone — a semantics given to step
+   NAMES.  Here [other] is ARBITRARY: any step that is not one of C10's read-only calls
+   (BuildSteps.pure_calls) may rewrite the file with anything, depending on anything
+   (a package that ships etc/apk/repositories, the temp path of the base image), or
+   fail.  What decides is the ORDER read from the source: for every valuation of the
+   condition texts, SetRepositories is the last step before the serialiser that may
+   change the filesystem (c10_set_last_before_serialise, computed over the generated
+   step lists) — so a build that succeeds serialises the runtime list, whatever the
+   initial file [st] and whatever the other steps wrote.  A step inserted between
+   postBuildSetApk and the serialiser, or an early return, makes the computed fact false. *)
+Theorem c01_repositories_file_whatever_the_other_steps_do :
+  forall (other : string -> list string -> res (list string)) cond c st r,
+  final_repos_any other c10_steps c10_setrepos_sources cond c st = Some (Ok r) ->
+  r = canon_runtime_repos (rc_runtime c) (rc_xruntime c).
+Proof. exact repositories_generated_any. Qed.
+Print Assumptions c01_repositories_file_whatever_the_other_steps_do.
+
 (* ... and the rewrite is what does it: with step lists that never call
    SetRepositories the two temp paths give two different files *)
 Theorem c01_repositories_file_without_rewrite_refuted :
@@ -467,6 +485,13 @@ Example c01_repositories_example :
   init_repos c01_init_repo_sources c01_init_repo_appends c (Some "/tmp/apko-temp-1/APKINDEX") = Some ["/a"; "/b"; "/r"; "/tmp/apko-temp-1/APKINDEX"] /\
   final_repos c10_steps c10_setrepos_sources (single_layer_cond c10_steps) c ["/a"; "/b"; "/r"; "/tmp/apko-temp-1/APKINDEX"] = Some (Ok ["/a"; "/r"]).
 Proof. vm_compute. split; reflexivity. Qed.
+
+(* every other step scribbles the temp path into the file; the build still serialises the runtime list *)
+Example c01_repositories_any_example :
+  let c := {| rc_build := ["/b"]; rc_runtime := ["/r"; "/a"]; rc_xbuild := []; rc_xruntime := ["/a"] |} in
+  let other := fun (call : string) (st : list string) => Ok (st ++ [String.append "/tmp/apko-temp-1/" call]) in
+  final_repos_any other c10_steps c10_setrepos_sources (single_layer_cond c10_steps) c ["/tmp/x"] = Some (Ok ["/a"; "/r"]).
+Proof. vm_compute. reflexivity. Qed.
 
 (* the limit: GOMAXPROCS = 1 gives a limit of two — the installer and ONE expansion:
    the second expansion cannot start before the first has finished; with
